@@ -238,10 +238,10 @@ class Module(object):
                 if isinstance(node.op, ast.Pow) and (not isinstance(b, int) or b < 0 or b > 4096):
                     raise Unsupported('pow')
                 return ops[type(node.op)]()
-        if isinstance(node, ast.Call) and isinstance(node.func, ast.Name) and node.func.id in self.SAFE_FUNCS:
+        if isinstance(node, ast.Call) and isinstance(node.func, ast.Name) and node.func.id in ConstEnv.SAFE_FUNCS:
             args = [self.eval_const(a, cls) for a in node.args]
             kw = {k.arg: self.eval_const(k.value, cls) for k in node.keywords}
-            return self.SAFE_FUNCS[node.func.id](*args, **kw)
+            return ConstEnv.SAFE_FUNCS[node.func.id](*args, **kw)
         raise KeyError(ast.dump(node)[:80])
 
 
